@@ -189,26 +189,28 @@ def Circuit.fuel (c : Circuit) : Nat := c.nid + 2 * (c.ne + c.np + c.nc) + 2
 def succsIn (es : List (V × V)) (v : V) : List V := es.filterMap fun p => if p.1 = v then some p.2 else none
 def predsIn (es : List (V × V)) (v : V) : List V := es.filterMap fun p => if p.2 = v then some p.1 else none
 
-/-- breadth-first closure (frontier based; each vertex is expanded once, `fuel` bounds the number of expansions).
-    No theorem depends on this function: `incompatInfo` *checks* that the set it returns is closed. -/
+/-- the elements of `l` that are not in `visited`, each once, in order of first occurrence -/
+def freshOf (visited : List V) : List V → List V
+  | [] => []
+  | y :: ys => if y ∈ visited then freshOf visited ys else y :: freshOf (visited ++ [y]) ys
+
+/-- breadth-first closure (frontier based; each vertex is expanded once, `fuel` bounds the number of expansions) -/
 def bfs (step : V → List V) : Nat → List V → List V → List V
   | 0, visited, _ => visited
   | _, visited, [] => visited
   | f + 1, visited, x :: frontier =>
-    let new := ((step x).filter fun y => !visited.contains y).eraseDups
+    let new := freshOf visited (step x)
     bfs step f (visited ++ new) (frontier ++ new)
 
 /-- `nx.descendants(dag, v)`: everything reachable from `v` in at least one step -/
 def Circuit.descendants (c : Circuit) (v : V) : List V :=
   let es := c.edgesV
-  let s0 := (succsIn es v).eraseDups
-  bfs (succsIn es) c.fuel s0 s0
+  bfs (succsIn es) c.fuel (freshOf [] (succsIn es v)) (freshOf [] (succsIn es v))
 
 /-- `nx.ancestors(dag, v)` -/
 def Circuit.ancestors (c : Circuit) (v : V) : List V :=
   let es := c.edgesV
-  let s0 := (predsIn es v).eraseDups
-  bfs (predsIn es) c.fuel s0 s0
+  bfs (predsIn es) c.fuel (freshOf [] (predsIn es v)) (freshOf [] (predsIn es v))
 
 structure Incompat where
   anc : List V
@@ -325,21 +327,21 @@ def Circuit.removeIdentity (c : Circuit) (order : List Nat) : Circuit :=
     | some ⟨.base .I, _, _, _⟩ => c'.removeOp n
     | _ => c') c
 
-/-- class list a node contributes to `gate_list` in `group_one_qubit_gates` (`none`: the node is a `MeasurementZ`,
-    which carries the label `one-qubit` but cannot be wrapped → `AssertionError`) -/
-def groupGates : Kind → Option (List G1)
-  | .wrapper gs => some gs
-  | .base g => some [g]
-  | _ => none
+/-- class list a groupable node contributes to `gate_list` in `group_one_qubit_gates` -/
+def groupGates : Kind → List G1
+  | .wrapper gs => gs
+  | .base g => [g]
+  | _ => []
 
 structure GroupSt where
   c : Circuit
   gates : List G1
-  bad : Bool
 
-def Circuit.hasOneQubitLabel (c : Circuit) (n : Nat) : Bool :=
+/-- `groupable(nd)`: the node carries the label `one-qubit` *and* is a `OneQubitOperationBase` (a wrapper or a base
+    gate); a `MeasurementZ` also carries the label but is a boundary -/
+def Circuit.groupable (c : Circuit) (n : Nat) : Bool :=
   match c.node n with
-  | some op => op.kind.oneQubitLabel
+  | some op => op.kind.isGate1
   | none => false
 
 /-- the backward walk of `group_one_qubit_gates` over one register: `rev` is the wire in reverse order.  `prev` of a
@@ -348,13 +350,13 @@ def groupWalk (r : Reg) : List Nat → GroupSt → GroupSt
   | [], s => s
   | n :: rest, s =>
     let s1 : GroupSt :=
-      if s.c.hasOneQubitLabel n then
-        match (s.c.node n).bind fun op => groupGates op.kind with
-        | some gs => { s with c := s.c.removeOp n, gates := s.gates ++ gs }
-        | none => { s with c := s.c.removeOp n, bad := true }
+      if s.c.groupable n then
+        { c := s.c.removeOp n, gates := s.gates ++ (match s.c.node n with
+            | some op => groupGates op.kind
+            | none => []) }
       else s
     let nextIsOne : Bool := match rest with
-      | m :: _ => s1.c.hasOneQubitLabel m
+      | m :: _ => s1.c.groupable m
       | [] => false
     let s2 : GroupSt :=
       if !nextIsOne && !s1.gates.isEmpty then
@@ -362,15 +364,14 @@ def groupWalk (r : Reg) : List Nat → GroupSt → GroupSt
         let pos := match rest with
           | m :: _ => (s1.c.wire r).idxOf m + 1
           | [] => 0
-        { s1 with c := s1.c.insertAt ⟨.wrapper s1.gates, [r], [], false⟩ [⟨r, pos⟩], gates := [] }
+        { c := s1.c.insertAt ⟨.wrapper s1.gates, [r], [], false⟩ [⟨r, pos⟩], gates := [] }
       else s1
     groupWalk r rest s2
 
 /-- `group_one_qubit_gates()` over the registers in the order of `node_dict["Output"]` (a parameter; the constructor
     creates emitters, photons, classical) -/
-def Circuit.groupOneQubitGates (c : Circuit) (order : List Reg) : Except Err Circuit :=
-  let s := order.foldl (fun s r => groupWalk r (s.c.wire r).reverse { s with gates := [] }) ⟨c, [], false⟩
-  if s.bad then .error .assertion else .ok s.c
+def Circuit.groupOneQubitGates (c : Circuit) (order : List Reg) : Circuit :=
+  (order.foldl (fun s r => groupWalk r (s.c.wire r).reverse { s with gates := [] }) ⟨c, []⟩).c
 
 /-- `seq` is a linear extension of the DAG's op nodes: a permutation of the op nodes that keeps every wire's order -/
 def Circuit.isLinearExtension (c : Circuit) (seq : List Nat) : Bool :=
@@ -442,7 +443,7 @@ def World.exec (w : World) (call : Call) : World :=
     | .copy i => (get i).map Circuit.copy
     | .unwrapCopy i order => (get i).map fun c => c.copy.unwrapNodes order
     | .removeIdentityCopy i order => (get i).map fun c => c.copy.removeIdentity order
-    | .groupCopy i order => (get i).bind fun c => exceptToOption' (c.copy.groupOneQubitGates order)
+    | .groupCopy i order => (get i).map fun c => c.copy.groupOneQubitGates order
     | .assignNoise i seq => (get i).bind fun c => exceptToOption' (c.assignNoise seq)
     | .readOnly _ => none
   ⟨w.circuits ++ new.toList⟩
